@@ -48,10 +48,18 @@ def directed_module():
                       {"type": 1, "locals": [], "body": [["i32.const", b32(308)], ["i64.const", b64(-0x123456789)], ["i64.store", 3, 0], ["end"]]},
                       {"type": 2, "locals": [], "body": [["local.get", 0], ["i64.const", b64(1 << 62)], ["i64.add"], ["local.get", 1], ["f64.const", b64(0x7FF8000000000001)],
                                                          ["f64.add"], ["i64.trunc_sat_f64_s"], ["i64.add"], ["end"]]},
-                      {"type": 0, "locals": [], "body": [["local.get", 0], ["i32.const", b32(1)], ["i32.shl"], ["end"]]}],
+                      {"type": 0, "locals": [], "body": [["local.get", 0], ["i32.const", b32(1)], ["i32.shl"], ["end"]]},
+                      # locals of all types in several groups, each used with its own type
+                      {"type": 0, "locals": [["f32", 2], ["i32", 1], ["f64", 2], ["i32", 3], ["i64", 2], ["i32", 1]],
+                       "body": [["f32.const", b32(0x3FC00000)], ["local.set", 2], ["local.get", 0], ["local.set", 3], ["f64.const", b64(0x4004000000000000)], ["local.set", 5],
+                                ["i32.const", b32(7)], ["local.set", 8], ["i64.const", b64(1 << 40)], ["local.set", 10], ["i32.const", b32(9)], ["local.set", 11],
+                                ["local.get", 2], ["i32.trunc_f32_s"], ["local.get", 3], ["i32.add"], ["local.get", 5], ["i32.trunc_f64_s"], ["i32.add"],
+                                ["local.get", 8], ["i32.add"], ["local.get", 10], ["i64.const", b64(38)], ["i64.shr_u"], ["i32.wrap_i64"], ["i32.add"],
+                                ["local.get", 11], ["i32.add"], ["local.get", 6], ["i32.add"], ["local.get", 1], ["i32.trunc_f32_s"], ["i32.add"], ["end"]]}],
             "table": {"min": 4, "max": 4}, "memory": {"min": 1, "max": 3},
             "globals": [{"t": "i64", "mut": True, "init": ["i64.const", b64(-1)]}, {"t": "i32", "mut": False, "init": ["global.get", 0]}],
-            "exports": [{"name": "run", "kind": "func", "idx": 1}, {"name": "mix", "kind": "func", "idx": 3}, {"name": "memory", "kind": "memory", "idx": 0}],
+            "exports": [{"name": "run", "kind": "func", "idx": 1}, {"name": "mix", "kind": "func", "idx": 3}, {"name": "memory", "kind": "memory", "idx": 0},
+                        {"name": "locs", "kind": "func", "idx": 5}],
             "start": 2,
             "elems": [{"offset": ["i32.const", b32(1)], "funcs": [1, 4, 0]}],
             "data": [{"mode": "active", "offset": ["i32.const", b32(300)], "bytes": [1, 0x80, 0xFF, 0x7F]}, {"mode": "passive", "bytes": [7, 7]},
@@ -67,15 +75,24 @@ def choice_vectors(rng, m, n):
                                                                ("linking", []), ("a", [0]), ("b", [1]), ("c", [2]), ("d", [3]), ("e", [4]), ("f", [5]), ("g", [6])])],
                             "dataForm": {"0": "flag2", "2": "flag2"}},
             {"custom": [{"at": k, "name": "c%d" % k, "payload": [k] * k} for k in range(14)]},
-            {"dataForm": {"0": "flag2"}, "emitEmpty": ["type", "import", "function", "table", "memory", "global", "export", "element", "code", "data"]}]
+            {"dataForm": {"0": "flag2"}, "emitEmpty": ["type", "import", "function", "table", "memory", "global", "export", "element", "code", "data"]},
+            # a custom section that happens to be called "name" is still only a custom section: anywhere, with any content
+            # (a well-formed function-name subsection before the function section, stale indices, garbage)
+            {"custom": [{"at": 0, "name": "name", "payload": [1, 5, 1, 0, 2, 0x66, 0x30]}]},
+            {"custom": [{"at": 3, "name": "name", "payload": [1, 7, 1, 0xE7, 0x07, 3, 0x61, 0x62, 0x63]}]},
+            {"custom": [{"at": 5, "name": "name", "payload": [0xFF, 0xFF, 0xFF, 0xFF, 0xFF, 0xFF]}, {"at": 99, "name": "name", "payload": []}]},
+            {"custom": [{"at": 11, "name": "name", "payload": [0, 2, 1, 0x6D, 1, 4, 1, 0, 1, 0x78, 2, 1, 0]}]},
+            {"splitLocals": "single"}, {"splitLocals": "pairs"}, {"splitLocals": "empties"}, {"splitLocals": "single", "padall": 1}]
     for _ in range(n):
         pad = {f: rng.choice([0, 0, 1, 2, 4, 9]) for f in rng.sample(fields, max(1, len(fields) // rng.choice([2, 3, 6])))}
         c = {"pad": pad}
         if rng.random() < 0.5:
-            c["custom"] = [{"at": rng.randrange(0, 13), "name": rng.choice(["", "n", "name_", ".debug_str", "target_features"]),
+            c["custom"] = [{"at": rng.randrange(0, 13), "name": rng.choice(["", "n", "name", "name", "name_", ".debug_str", "target_features"]),
                             "payload": [rng.randrange(256) for _ in range(rng.choice([0, 1, 5, 200]))]} for _ in range(rng.randint(1, 3))]
         if rng.random() < 0.4:
             c["dataForm"] = {str(k): "flag2" for k in range(4) if rng.random() < 0.5}
+        if rng.random() < 0.3:
+            c["splitLocals"] = rng.choice(["single", "pairs", "empties"])
         if rng.random() < 0.3:
             c["emitEmpty"] = rng.sample(["type", "import", "function", "table", "memory", "global", "export", "element", "data"], 3)
         vecs.append(c)
@@ -126,7 +143,8 @@ def main():
             mods.append((it["id"], it["module"], it["script"]))
         for it in wasmgen.programs("calls", 12 if tier == "quick" else 150, SEED, args_per_prog=3)[:4 if tier == "quick" else 60]:
             mods.append((it["id"], it["module"], it["script"]))
-        dscript = [INST, {"op": "call", "inst": 1, "export": "mix", "args": [{"t": "i64", "b": b64(5)}, {"t": "f64", "b": b64(0x4000000000000000)}]}]
+        dscript = [INST, {"op": "call", "inst": 1, "export": "mix", "args": [{"t": "i64", "b": b64(5)}, {"t": "f64", "b": b64(0x4000000000000000)}]},
+                   {"op": "call", "inst": 1, "export": "locs", "args": [{"t": "i32", "b": b32(100)}]}]
         jobs, items, fields_checked = [], [], []
         for mm in mods:
             name, m = mm[0], mm[1]
